@@ -531,6 +531,80 @@ def check_population(tier, want):
                 viol("C13", "tournament selection picks different winners on (f, maximize) and (-f, minimize)", dict(fits=fits.tolist()))
 
 
+# ---- C16 / C03: wrapper stacks -----------------------------------------------------------------------------------------------------
+def check_wrappers(tier):
+    from pyhms.core.problem import EvalCutoffProblem, PrecisionCutoffProblem, StatsGatheringProblem, get_function_problem
+    kinds = ["count", "cutoff", "precision", "stats"]
+    box = np.array([(-5.0, 5.0)] * 2)
+    vals = [3.0, 1.0, 0.05, 0.0, 7.0, 0.01, 2.0, math.inf, -math.inf]
+    depth_max = 3 if tier == "quick" else 4
+    for mx in (False, True):
+        for depth in range(0, depth_max + 1):
+            for stack in itertools.product(kinds, repeat=depth):
+                calls = []
+
+                def f(x, _c=calls):
+                    _c.append(1)
+                    return vals[(len(_c) - 1) % len(vals)] * (-1 if mx else 1)
+                base = FunctionProblem(f, box, mx)
+                p = base
+                layers = []
+                for k in stack:            # innermost first
+                    if k == "count":
+                        p = EvalCountingProblem(p)
+                    elif k == "cutoff":
+                        p = EvalCutoffProblem(p, 3)
+                    elif k == "precision":
+                        p = PrecisionCutoffProblem(p, 0.0, 0.1)
+                    else:
+                        p = StatsGatheringProblem(p)
+                    layers.append((k, p))
+                case(depth >= 2, dict(fn="wrapper stack", stack=list(stack), maximize=mx) if depth == 3 and len(SAMPLES) < 6 else None)
+                if get_function_problem(p) is not base or p.maximize != mx or p.bounds is not box:
+                    viol("C16", "a wrapper stack does not expose the innermost problem's bounds / direction", dict(stack=stack))
+                if p.worse_than(1.0, 2.0) != (not mx if False else (1.0 < 2.0) == mx):
+                    viol("C16", "worse_than through a wrapper stack is not the innermost problem's comparison", dict(stack=stack, maximize=mx))
+                sentinel = -math.inf if mx else math.inf
+                n_calls = 8
+                forwarded_before = {id(w): 0 for _, w in layers}
+                first_hit = {}
+                for c in range(1, n_calls + 1):
+                    before = len(calls)
+                    # which layers will see this call: everything above (and including) the outermost exhausted cutoff refuses
+                    r = p.evaluate(np.array([0.0, 0.0]))
+                    invoked = len(calls) - before
+                    refused = False
+                    reached = True
+                    for k, w in reversed(layers):          # outermost first
+                        if not reached:
+                            break
+                        if k == "cutoff" and forwarded_before[id(w)] >= 3:
+                            refused = True
+                            reached = False
+                            break
+                        forwarded_before[id(w)] += 1
+                    if not refused:
+                        true_val = vals[(len(calls) - 1) % len(vals)] * (-1 if mx else 1)
+                        if invoked != 1 or r != true_val:
+                            viol("C16", "evaluate through a wrapper stack did not return exactly the wrapped objective's value", dict(stack=stack, call=c, got=r))
+                    else:
+                        if invoked != 0 or r != sentinel:
+                            viol("C16", "an exhausted cutoff wrapper invoked the objective or did not return the worst value for the direction",
+                                 dict(stack=stack, call=c, got=r, maximize=mx))
+                    for k, w in layers:
+                        if k in ("count", "cutoff", "precision", "stats") and hasattr(w, "n_evaluations"):
+                            if w.n_evaluations != forwarded_before[id(w)]:
+                                viol("C16", "a counting wrapper's count differs from the number of evaluate calls it forwarded",
+                                     dict(stack=stack, layer=k, call=c, count=w.n_evaluations, forwarded=forwarded_before[id(w)], maximize=mx))
+                        if k == "precision":
+                            if w.hit_precision and id(w) not in first_hit:
+                                first_hit[id(w)] = forwarded_before[id(w)]
+                            if id(w) in first_hit and (not w.hit_precision or w.ETA != first_hit[id(w)]):
+                                viol("C16", "precision wrapper: ETA is not the sticky 1-based index of the first hit", dict(stack=stack, ETA=w.ETA, first=first_hit[id(w)]))
+                if len(calls) > 3 and "cutoff" in stack:
+                    viol("C03", "a cutoff wrapper with cutoff N let the objective be invoked more than N times", dict(stack=stack, calls=len(calls)))
+
+
 CHECKS = {
     "C08": [check_level_limit],
     "C09": [check_far_enough],
@@ -541,6 +615,8 @@ CHECKS = {
     "C12": [lambda t: check_population(t, "C12")],
     "C13": [lambda t: check_population(t, "C13"), check_deme_limit, check_level_limit, check_nbc],
     "C02": [lambda t: check_population(t, "C02")],
+    "C16": [check_wrappers],
+    "C03": [check_wrappers],
 }
 
 
